@@ -204,6 +204,7 @@ def gen_case(r, cid, tier, family=None, force=None):
     g.xs = gl.rand_points(r, spec, 3, trans)
     loaded, needed, constructing, refined = (outs == 0), (outs > 0), False, False
     random_coefs = False
+    removed = False
     nested = (spec["family"] != "global" or spec["rule"] in gl.GLOBAL_NESTED) and not conformal      # 'nested' gates beginConstruction
     iscustom = spec.get("rule") == "custom-tabulated"     # updateGrid() of a custom-rule grid without loaded values re-reads the rule from a null file name
     fns = ["hash", "hash", "poly", "smooth", "affine"]
@@ -311,9 +312,10 @@ def gen_case(r, cid, tier, family=None, force=None):
                     g.lines.append("clearref g")
                     needed, did = False, "clearref"
                 elif k < 0.76 and spec["family"] == "localp":
-                    g.lines.append(r.choice(["remtol g %s %d" % (vlib.hexf(r.choice([1e-2, 1e-1, 1.0])), r.choice([-1, 0])),
-                                             "remcount g %d %d" % (r.randint(1, 12), r.choice([-1, 0]))]))
-                    needed, did = False, "remove"
+                    # (removePointsByHierarchicalCoefficient(n) reads past its arrays when n exceeds the number of points: only once, small n)
+                    g.lines.append(r.choice(["remtol g %s %d" % (vlib.hexf(r.choice([1e-2, 1e-1, 1.0])), r.choice([-1, 0]))] +
+                                            (["remcount g %d %d" % (r.randint(1, 3), r.choice([-1, 0]))] if not removed else [])))
+                    needed, did, removed = False, "remove", True
                 elif k < 0.82:
                     g.lines.append("setcoef g " + r.choice(fns))
                     did = "setcoef"
@@ -442,6 +444,11 @@ def parse_output(text):
             if step.raw is None:
                 step.raw = {}
             step.raw[t[0]] = (t[1] if len(t) > 1 else "").strip()
+        elif line.startswith("w "):          # white-box facts that are not serialised (input class of findings only)
+            t = line[2:].split()
+            if step.raw is None:
+                step.raw = {}
+            step.raw["_" + t[0]] = t[1]
         elif line.startswith("a "):
             t = line[2:].split(" ", 1)
             if step.api is None:
@@ -481,7 +488,7 @@ def parse_model(text):
     return out
 
 
-def run_driver_parallel(drv, gens, wd, timeout, case_timeout=15):
+def run_driver_parallel(drv, gens, wd, timeout, case_timeout=15, env=None):
     """split the cases over the cores; every process gets its own script file, all share the work directory"""
     n = max(1, min(vlib.NCPU, len(gens)))
     chunks = [gens[i::n] for i in range(n)]
@@ -491,7 +498,7 @@ def run_driver_parallel(drv, gens, wd, timeout, case_timeout=15):
         with open(sp, "w") as fh:
             for g in chunks[i]:
                 fh.write("\n".join(g.lines) + "\n")
-        rc, so, se = vlib.run([drv, sp, wd, str(case_timeout)], timeout=timeout)
+        rc, so, se = vlib.run([drv, sp, wd, str(case_timeout)], timeout=timeout, env=env)
         with open(os.path.join(wd, "script%d.out" % i), "w") as fh:
             fh.write(so)
         return rc, so, se
@@ -603,7 +610,7 @@ def trigger_of(raw, default):
     if raw.get("outs") == "0":
         return "zero-outputs"
     if raw.get("constr") == "1":
-        return "constructing"
+        return "constructing-with-complete-tensor-waiting" if raw.get("_complete_tensors", "0") != "0" else "constructing"
     return default
 
 
@@ -684,8 +691,10 @@ def evaluate(res, gens, cases, model, stats, fam_of):
             stats["observations"] += 1
             stats["states"][state.split(":")[0]] = stats["states"].get(state.split(":")[0], 0) + 1
             # ---- tie: model decode / re-encode / fields
-            m = model.get(ob["tag"])
-            if m is None:
+            m = model.get(ob["tag"]) if model is not None else None
+            if model is None:
+                pass
+            elif m is None:
                 if ob["tag"] in stats["too_large"]:
                     stats["model_skipped_large"] += 1
                 else:
@@ -696,7 +705,7 @@ def evaluate(res, gens, cases, model, stats, fam_of):
                     viol("model-%s:%s:%s" % (bad[0].split()[2].rstrip(":"), fam, trigger_of(live.raw if live else None, cls)), "the binary image does not follow the proved grammar: " + bad[0][:300], at=i)
                     stats["model_mismatch"] += 1
                 elif live is not None and live.raw is not None:
-                    f, rw = m["fields"], live.raw
+                    f, rw = m["fields"], {k: v for k, v in live.raw.items() if not k.startswith("_")}
                     diff = [t for t in sorted(set(f) | set(rw)) if f.get(t) != rw.get(t)]
                     if diff:
                         t = diff[0]
@@ -970,6 +979,26 @@ def run(res, tier, seed, replay_script=None):
     evaluate(res, gens, cases, model, stats, None)
     vlib.log("[C06] evaluation in %.1fs" % (time.time() - t0))
     t0 = time.time()
+    # ---- the witnesses and the first cases once more under AddressSanitizer/UBSan: a reader that leaves a cache too small shows as an
+    #      out-of-bounds access on the restored grid (judged by the same rules; the model tie is not repeated)
+    nas = 0 if replay_script else {"quick": 700, "thorough": 6000}[tier]
+    astats = None
+    if nas:
+        adrv = vlib.build_driver("iodrv", "asan")
+        awd = os.path.join(vlib.BUILD, "work", PID, "asan")
+        shutil.rmtree(awd, ignore_errors=True)
+        os.makedirs(awd, exist_ok=True)
+        open(os.path.join(awd, "custom.table"), "w").write(CUSTOM_TABLE)
+        env = dict(os.environ, ASAN_OPTIONS="detect_leaks=0:abort_on_error=0:exitcode=1", UBSAN_OPTIONS="print_stacktrace=1")
+        arcs, acases = run_driver_parallel(adrv, gens[:nas], awd, timeout={"quick": 900, "thorough": 3000}[tier], case_timeout=60, env=env)
+        astats = dict(stats, observations=0, roundtrips=0, roundtrips_equal=0, continuations=0, continuations_equal=0, states={}, to_confirm=[],
+                      library_failures_outside_io={}, library_failure_examples={}, drv=adrv, wd=awd)
+        evaluate(res, gens[:nas], acases, None, astats, None)
+        stats["violations"] = astats["violations"]
+        vlib.log("[C06] sanitizer pass: %d cases in %.1fs" % (nas, time.time() - t0))
+        if not os.environ.get("VERIF_KEEP"):
+            shutil.rmtree(awd, ignore_errors=True)
+    t0 = time.time()
     confirm_cases(res, drv, wd, stats)
     vlib.log("[C06] confirmations: %d in %.1fs" % (len(stats["to_confirm"]), time.time() - t0))
 
@@ -1014,6 +1043,9 @@ def run(res, tier, seed, replay_script=None):
         "direct_property_violations": stats["violations"],
         "failures_after_a_rejected_history_call_not_reported": stats["failures_after_a_rejected_history_call"],
         "failures_after_a_rejected_history_call_examples": stats["failures_after_a_rejected_history_call_examples"], "timeouts_that_returned_with_10x_budget": stats["slow_cases_not_hanging_with_10x_budget"],
+        "sanitizer_pass": ({"cases": nas, "observations": astats["observations"], "roundtrips_compared": astats["roundtrips"],
+                            "roundtrips_bit_identical": astats["roundtrips_equal"], "library_failures_outside_io": astats["library_failures_outside_io"],
+                            "examples": astats["library_failure_examples"]} if astats else None),
         "skipped_library_failures_outside_io": stats["library_failures_outside_io"], "skipped_library_failure_examples": stats["library_failure_examples"],
     })
     res.assumptions = [
